@@ -223,6 +223,16 @@ func main() {
 	if profStop != nil {
 		profStop()
 	}
+	var fsn []string
+	for _, fs := range allFlagSets {
+		fsn = append(fsn, fs.name+"="+flagString(fs.f))
+	}
+	r.Set("bounds", map[string]interface{}{
+		"flag_sets": fsn,
+		"layers":    "see bounds_L1, bounds_L2 (+bounds_L1x, bounds_L2x in thorough), bounds_L3, bounds_L4, bounds_L5, bounds_W; vectors_bound lists the shipped Core vectors replayed first",
+		"quick":     "L1 all byte strings len<=2 x 7 placements; L2 full alphabet (132 tokens) len<=2 x 15 stacks, core alphabet (50 tokens) len<=3 x 5 stacks, 4 wrappings; L3/L4/L5/W complete",
+		"thorough":  "adds L1 len 3 (reduced flag sets), L2 full alphabet len 3 and core alphabet len 4 (no tapscript wrapping), full multisig products",
+	})
 	r.Finish(exhaustive)
 }
 
